@@ -96,6 +96,8 @@ def gen(tier, rng):
                     cases.append("bp %s %s" % (ctx, hx(p[:rng.randrange(0, len(p) + 1)])))
                     cases.append("bp %s %s" % (ctx, hx(p + bytes([rng.choice([0, 0x80, 0xff])]))))
                     cases.append("bp - %s" % hx(p))
+                    from vlib import bitgen
+                    cases.append("bp %s %s" % (ctx, hx(bitgen.aliased(rng, lambda: enc_bp(rng, s)))))
                 q = enc_pt(rng, s)
                 cases.append("pt %s %d %s" % (ctx, s["id"], hx(q)))
                 if rng.random() < 0.3:
